@@ -19,6 +19,8 @@ type VN = &'static str;
 // @h c02_sint_width | same for SignedInt: PropertySize<i64>, layout SignedInt arm; monitor on Serializer::write_isized | two values of both signs | -2^(8n-1) <= v < 2^(8n-1) for the chosen n | two values, 64 bit
 // @h c02_content_width | schema::Property::{new_content_address,process,finalize}; serialize_entry ContentAddress arm; monitor on write_usized | two content addresses (pack id u16, content id u32), either written | no truncation; constant pack id <=> default pack id | two values
 // @h c02_array_width | schema::Property::{new_array,process,finalize}; PropertySize<usize>; StoreHandle::key_size; serialize_entry Array / IndirectArray arms; monitor on write_usized | array length (<= 0xFFFFFF), value id within the store's invariant, store size / count | the length and the value id fit the widths chosen | plain and indexed stores
+// @h c02_indirect_width | schema::Property::new_array (fixed length 0 on an indexed store); Property::finalize; StoreHandle::key_size; serialize_entry IndirectArray arm; monitor on write_usized | value count of the store (<= 70000), a value id below it | such a column is an IndirectArray; its id fits the key width (<= 7 bytes) | count <= 70000
+// @h c02_entry_indirect_bytes | serialize_entry IndirectArray arm and Array arm without length/prefix | value id, key width 1..7 | writes == [value id (W LE)] | W 1..7
 // @h c02_entry_int_bytes | serialize_entry UnsignedInt / SignedInt arms; Serializer::{write_usized,write_isized} | value, width W (concrete per call, case split 1..8) | bytes == little endian two's complement of the value on W bytes | W 1..8
 // @h c02_entry_content_bytes | serialize_entry ContentAddress arm | pack id, content id, widths (case split), default or not | bytes == [pack id (W1 LE) unless default][content id (W2 LE)] | all 8 width pairs
 // @h c02_entry_array_bytes | serialize_entry Array arms (Array0/1/2/Array) and IndirectArray | array length, inline prefix (0..3 bytes of a 0..3 byte fixed part), value id, widths | bytes == [len (Wl LE)][prefix, zero padded to the fixed length][value id (Wk LE)] | fixed length <= 3, prefix <= fixed length
